@@ -113,7 +113,8 @@ DeviationNames ==
       "Html!NestedTableRepeated",    \* rows of a nested table are collected as rows of the outer table too
       "Epub!TableTextDropped",       \* text inside tables is neither in the text nor (nested) in the tables
       "Rtf!DeletedLeaks",            \* {\deleted ...} groups are not skipped
-      "Xlsx!UnnamedHeaderPlaceholder" }   \* empty cells of the first row are rendered as "Unnamed: <col>"
+      "Xlsx!UnnamedHeaderPlaceholder",
+      "Odt!TextboxParagraphsGlued" }      \* paragraphs inside a text box are concatenated without separator   \* empty cells of the first row are rendered as "Unnamed: <col>"
 
 \* does deviation dv apply to token atom a in format fmt?  [min, max] occurrence bounds and leak permission
 InDomain(dv, fmt, a) ==
@@ -153,7 +154,13 @@ Count(seq, x) == Cardinality({k \in DOMAIN seq : seq[k] = x})
 \* segment number of every token: tokens in the same segment may be glued in the output
 SegOf(flat, fmt, dev) ==
     LET n == Len(flat)
-        bump(k) == flat[k][1] = "b" /\ (flat[k][2] = "hard" \/ SoftCounts(fmt, dev))
+        \* a paragraph boundary between two text-box tokens does not count under the ODT text-box deviation
+        inTbx(k) == /\ fmt = "odt" /\ "Odt!TextboxParagraphsGlued" \in dev
+                    /\ \E i \in 1..(k - 1) : flat[i][1] = "t" /\ "tbx" \in flat[i][4]
+                          /\ \A j \in (i + 1)..(k - 1) : flat[j][1] = "b"
+                    /\ \E i \in (k + 1)..n : flat[i][1] = "t" /\ "tbx" \in flat[i][4]
+                          /\ \A j \in (k + 1)..(i - 1) : flat[j][1] = "b"
+        bump(k) == flat[k][1] = "b" /\ (flat[k][2] = "hard" \/ SoftCounts(fmt, dev)) /\ ~inTbx(k)
         seg[k \in 0..n] == IF k = 0 THEN 0 ELSE IF bump(k) THEN seg[k - 1] + 1 ELSE seg[k - 1]
     IN [id \in {flat[k][2] : k \in {j \in 1..n : flat[j][1] = "t"}} |->
             seg[CHOOSE k \in 1..n : flat[k][1] = "t" /\ flat[k][2] = id]]
